@@ -30,6 +30,24 @@ def gen(tier, rng, shard, nshards):
             parts = [S.gen_tree(rng, 0, o, (a, a)) for a in sizes]
             if all(p is not None for p in parts):
                 node = {"k": k, "via": S.pick(rng, ["fn", "fn-right", "fn-right"]), "args": parts}
+        if rng.random() < 0.05:
+            # directed: products of two Kronecker operators whose leading factors conform pairwise while the numbers of factors
+            # differ (surplus 1 x 1 weight, m x 1 or 1 x n factors), next to products with equal factor counts
+            dims = [(int(a), int(b), int(c)) for a, b, c in rng.integers(1, 4, size=(int(rng.integers(2, 4)), 3))]
+            left = [S.gen_tree(rng, 0, o, (a, b)) for a, b, c in dims]
+            right = [S.gen_tree(rng, 0, o, (b, c)) for a, b, c in dims]
+            extra = S.pick(rng, ["none", "left-1x1", "right-1x1", "left-mx1", "right-1xn", "both"])
+            if extra in ("left-1x1", "both"):
+                left.append(S.gen_tree(rng, 0, o, (1, 1)))
+            if extra in ("right-1x1", "both"):
+                right.insert(int(rng.integers(0, len(right) + 1)) if extra == "both" else len(right), S.gen_tree(rng, 0, o, (1, 1)))
+            if extra == "left-mx1":
+                left.append(S.gen_tree(rng, 0, o, (int(rng.integers(2, 5)), 1)))
+            if extra == "right-1xn":
+                right.append(S.gen_tree(rng, 0, o, (1, int(rng.integers(2, 5)))))
+            if all(p is not None for p in left + right):
+                node = {"k": "Product", "via": S.pick(rng, ["fn", "fn", "ctor"]),
+                        "args": [{"k": "Kronecker", "via": "ctor", "args": left}, {"k": "Kronecker", "via": "ctor", "args": right}]}
         xdt = S.pick(rng, S.ALL_DT) if dtm.startswith("mixed") else S.pick(rng, [dtm, dtm, dtm] + S.ALL_DT)
         yield {"spec": node, "xdt": xdt, "xcols": int(S.pick(rng, [0, 1, 2, 3, 5])), "xseed": S.seed(rng)}
 
@@ -87,17 +105,50 @@ def evaluate(oracle, node, case, ctx):
             return D.dtype == ref.dtype, {"got": str(D.dtype), "want": str(ref.dtype)}
         e = max(ref.eps, R.eps_of(D.dtype) if D.dtype.kind in "fc" else 0)
         return R.close(D, ref.M, ref.B, ref.dtype, eps=e)
+    if oracle == "second-use":
+        # the same operator object used again after the caller has overwritten what the first use handed back
+        x = operand(case, n, 2)
+        y1, D1 = ctx.call(lambda: A @ x), ctx.call(A.to_dense)
+        if is_err(y1) or is_err(D1):
+            return True, None  # (judged by the other oracles)
+        ctx.scribble(np.asarray(y1), A, x)  # (an Identity hands its operand back: that is the caller's x, not a private result)
+        ctx.scribble(np.asarray(D1), A, x)
+        y2, D2 = ctx.call(lambda: A @ x), ctx.call(A.to_dense)
+        if is_err(y2) or is_err(D2):
+            return False, {"error": repr(y2 if is_err(y2) else D2)}
+        e = max(ref.eps, R.eps_of(x.dtype))
+        ok1, d1 = R.close(y2, ref.M @ x, ref.B @ np.abs(x), np.result_type(ref.dtype, x.dtype), eps=e)
+        ok2, d2 = R.close(np.asarray(D2), ref.M, ref.B, ref.dtype, eps=ref.eps)
+        return (ok1 and ok2), {"product": d1, "dense": d2}
+    if oracle == "rebuilt":
+        # an operator rebuilt (flatten / unflatten) from one that was already used, holding other data
+        def prime(S_):
+            S_.to_dense()
+            S_ @ operand(case, n, 2)
+        rb = B.rebuilt(node, prime)
+        if rb is None:
+            return True, None
+        A2, node2 = rb
+        ref2 = R.dense(node2)
+        x = operand(case, n, 2)
+        y, D = ctx.call(lambda: A2 @ x), ctx.call(A2.to_dense)
+        if is_err(y) or is_err(D):
+            return False, {"error": repr(y if is_err(y) else D)}
+        e = max(ref2.eps, R.eps_of(x.dtype))
+        ok1, d1 = R.close(y, ref2.M @ x, ref2.B @ np.abs(x), np.result_type(ref2.dtype, x.dtype), eps=e)
+        ok2, d2 = R.close(np.asarray(D), ref2.M, ref2.B, ref2.dtype, eps=ref2.eps)
+        return (ok1 and ok2), {"product": d1, "dense": d2}
     raise ValueError(oracle)
 
 
 ORACLES = ["build", "shape", "op-dtype", "matvec", "matmat", "product-dtype", "to_dense", "densify", "generic-dense",
-           "dense-dtype"]
+           "dense-dtype", "second-use", "rebuilt"]
 
 
 # a sub-expression is "bad" for blame purposes if any oracle of the same family fails on it (the paths taken
 # through a child differ between a parent's right product, left product and densification)
 GROUPS = [("build", ), ("shape", ), ("op-dtype", "dense-dtype"), ("product-dtype", ),
-          ("matvec", "matmat", "to_dense", "densify", "generic-dense", "left-product")]
+          ("matvec", "matmat", "to_dense", "densify", "generic-dense", "left-product", "second-use", "rebuilt")]
 
 
 def builds_identity(c):
